@@ -160,6 +160,9 @@ func TestC08(t *testing.T) {
 			if i := strings.Index(raw, "OUTSIDE-THE-FILE: "); i >= 0 {
 				return fmt.Sprintf("%v wrote into memory of the caller that is not part of the File: %s", op, raw[i+18:]), false
 			}
+			if v := ops.Verdict(raw); v != "" {
+				return fmt.Sprintf("%v: %s", op, strings.ToLower(v)), false
+			}
 			got := ops.Hash(raw)
 			if want := baseline[op.String()]; got != want {
 				if len(procHist) > len(h.Ops) {
